@@ -827,8 +827,8 @@ func lowerBound(p *Prog, v ssa.Value, depth int) (int64, bool) {
 			}
 			return min, true
 		}
-		if g := staticCallee(x); g != nil && g.Parent() != nil && len(x.Call.Args) == 0 {
-			// local closure returning a counted value
+		if g := staticCallee(x); g != nil && ((g.Parent() != nil && len(x.Call.Args) == 0) || isHelper(g)) {
+			// local closure (or a transparent helper) returning a counted value
 			min := int64(1 << 40)
 			for _, ret := range returnsOf(g) {
 				b, ok := lowerBound(p, retResult(ret, 0), depth+1)
